@@ -73,7 +73,7 @@ func TestVerifSchemes(t *testing.T) {
 		"alt:trunc", "alt:trunc-spare-cap", "alt:append", "alt:bitflip", "alt:s-plus-l", "alt:hint-order", "alt:hint-padding",
 		"alt:other-key", "alt:msg", "alt:ctx", "alt:ctx-msg-boundary", "alt:pubkey-bytes", "alt:ctx-256",
 		"ctx-256-sign-refused", "ctx-unsupported-refused", "pk-decoder-accepted", "pk-decoder-rejected",
-		"wrong-key-type-panicked", "signer-interface-agrees", "alt:component-mix", "honest-still-verifies")
+		"wrong-key-type-panicked", "signer-interface-agrees", "alt:component-mix", "honest-still-verifies", "alt:ctx-256-wrap")
 	all := schemes.All()
 	if len(all) != 10 {
 		t.Fatalf("expected 10 registered signature schemes, got %d", len(all))
@@ -269,6 +269,24 @@ func schemeCase(all []sign.Scheme, s sign.Scheme, k, m int) {
 				tgc := &target{subject: name, entry: "Verify", mon: monSchemes, detail: det,
 					verify: func(x []byte) bool { return s.Verify(pk, m2, x, o2) }}
 				tgc.expectReject("ctx-msg-boundary", sig)
+			}
+			// a context of 256+c bytes whose length byte wraps to c: the bytes
+			// hashed are those of the honest (ctx, msg) pair
+			if len(msg) >= 256 {
+				o2 := optsFor(cat(c.ctx, msg[:256]))
+				m2 := clip(msg[256:])
+				var ok bool
+				p := lib.Try("Verify:"+name+":ctx-256-wrap", sig, func() { ok = s.Verify(pk, m2, sig, o2) })
+				lib.Eval()
+				lib.Count("alt:ctx-256-wrap")
+				lib.Count("altered")
+				if p == nil && ok {
+					d := det()
+					d["ctx2_len"] = 256 + len(c.ctx)
+					lib.Violation("C02:accept-altered:"+name+":ctx-256-wrap", monSchemes, d)
+				} else {
+					lib.Count("rejected")
+				}
 			}
 			// 256-byte contexts on the verifying side: refused = false or panic
 			for _, c2 := range [][]byte{cat(c.ctx, make([]byte, 256-len(c.ctx))), cat(c.ctx, r.Bytes(256)), r.Bytes(256)} {
